@@ -73,6 +73,13 @@ def build_events():
     for w in withs:
         for i in inners:
             ev.append(("with", w, i))
+    # one call writing the same entry twice: two spellings, mapping + keyword form, dotted key + parent mapping
+    ev += [
+        ("with", {"x_y": 5, "x-y": 6}, None),
+        ("with", {"vb": 5}, None, {"vb": 7}),
+        ("with", {"a.b": 8, "a": {"b": 16}}, None),
+        ("with", {"w.k": 1}, None, {"w__k": 2}),
+    ]
     return ev
 
 
@@ -258,7 +265,15 @@ def observe_and_compare(I, M, where, fails):
 
 
 def apply_event(I, M, ev, fails, where):
-    """Apply one event to implementation and model; append (cls, msg) to fails. Returns nothing."""
+    """Apply one event to implementation and model; append (cls, msg) to fails. An exception raised by the library
+    for a well-formed request (anything but a rejected device) is a verdict, not a harness error."""
+    try:
+        _apply_event(I, M, ev, fails, where)
+    except Exception as e:  # noqa: BLE001
+        fails.append(({"relation": "valid_request_raises", "event": str(ev[0])}, f"{where}: {ev[0]} raised {type(e).__name__}: {str(e)[:200]}"))
+
+
+def _apply_event(I, M, ev, fails, where):
     C = I.C
     t = ev[0]
     if t == "set":
@@ -325,39 +340,47 @@ def apply_event(I, M, ev, fails, where):
             else:
                 M.set("device", exp[1])
     elif t == "with":
+        # ("with", mapping, inner[, kwargs]): `with set(mapping, **kwargs): inner`. The same entry may be written
+        # more than once inside one call (two spellings, mapping + keyword form, dotted key + parent mapping).
         w, inner = ev[1], ev[2]
-        pre = {k: model_get(M, k) for k in w}
-        pre_top = {k.split(".")[0]: copy.deepcopy(model_get(M, k.split(".")[0])) for k in w}
+        kw = ev[3] if len(ev) > 3 else {}
+        writes = list(w.items()) + [(k.replace("__", "."), v) for k, v in kw.items()]
+        keys = [k for k, _ in writes]
+        pre = {k: model_get(M, k) for k in keys}
+        pre_top = {k.split(".")[0]: copy.deepcopy(model_get(M, k.split(".")[0])) for k in keys}
+        M_in = M.copy()
+        for k, v in writes:
+            M_in.set(k, v)
         try:
-            with C.set(copy.deepcopy(w)):
-                for k, v in w.items():
+            with C.set(copy.deepcopy(w), **copy.deepcopy(kw)):
+                for k in keys:
                     got = I.get(k)
-                    if got != ("ok", v):
-                        fails.append(({"relation": "with_sets_inside"}, f"{where}: inside `with set({w})` get({k!r}) = {got!r}"))
+                    g = ("ok", norm_tree(got[1])) if got[0] == "ok" else got
+                    if g != model_get(M_in, k):
+                        fails.append(({"relation": "with_sets_inside"}, f"{where}: inside `with set({w}, **{kw})` get({k!r}) = {got!r}, last writer says {model_get(M_in, k)!r}"))
                 if inner == "same":
-                    k0 = next(iter(w))
-                    C.set({k0: 9})
+                    C.set({keys[0]: 9})
                 elif inner is not None:
                     C.set({inner[1]: inner[2]})
                     M.set(inner[1], inner[2])
         except TypeError as e:
-            fails.append(({"relation": "with_protocol"}, f"{where}: `with config.set({w})` raised {e!r}"))
+            fails.append(({"relation": "with_protocol"}, f"{where}: `with config.set({w}, **{kw})` raised {e!r}"))
             # the model follows what a failed `with` leaves behind: the plain assignments
-            for k, v in w.items():
+            for k, v in writes:
                 M.set(k, v)
             return
         # after exit: every key written by the with-set has its pre-entry value again
-        for k in w:
+        for k in keys:
             top = k.split(".")[0]
             if pre_top[top] == SENT:
                 M.cfg.pop(norm(top), None)
             else:
                 M.cfg[norm(top)] = copy.deepcopy(pre_top[top][1])
-        for k in w:
+        for k in keys:
             got = I.get(k)
             g = ("ok", norm_tree(got[1])) if got[0] == "ok" else got
             if g != pre[k]:
-                fails.append(({"relation": "with_restores_on_exit"}, f"{where}: after `with set({w})` (inner={inner}) get({k!r}) = {got!r}, before entry it was {pre[k]!r}"))
+                fails.append(({"relation": "with_restores_on_exit"}, f"{where}: after `with set({w}, **{kw})` (inner={inner}) get({k!r}) = {got!r}, before entry it was {pre[k]!r}"))
     else:
         raise ValueError(ev)
 
@@ -384,6 +407,8 @@ def run_history(hist, check_every=True):
         apply_event(I, M, ev, fails, where)
         if check_every or i == len(hist) - 1:
             observe_and_compare(I, M, where, fails)
+        if fails:
+            break  # later steps would only repeat the divergence
     return I, M, fails
 
 
@@ -398,7 +423,7 @@ def shard(first, depth=3):
             t.fail(cls, {"history": first}, msg)
         k0 = I.canon()
         res.states.add(k0)
-        frontier = [(list(first), I.dump(), M.copy())]
+        frontier = [] if fails else [(list(first), I.dump(), M.copy())]
         for d in range(depth):
             nxt = []
             for hist, blob, model in frontier:
@@ -415,6 +440,8 @@ def shard(first, depth=3):
                     for cls, msg in fl:
                         t.fail(cls, {"history": h2}, msg)
                     t.case(key=None, nontrivial=False, outcome=None)
+                    if fl:
+                        continue  # model and implementation have diverged: do not explore below a failing transition
                     if k in res.states:
                         continue
                     res.states.add(k)
@@ -517,7 +544,7 @@ def run(ctx):
         evaluations=transitions,
         exhaustive=True,
     )
-    if len(states) < 50:
+    if len(states) < 50 and ctx.tally.nfails == 0:
         from mc.harness import Broken
 
         raise Broken(f"state space suspiciously small ({len(states)} states)")
